@@ -61,27 +61,72 @@ theorem skip_sorted (lo : Nat) : ∀ (tbl : List Nat), Sorted tbl → Sorted (sk
     · exact ih ⟨fun x hx => h.wf x (List.mem_cons_of_mem _ hx), (List.pairwise_cons.mp h.pw).2⟩
     · exact h
 
-theorem skip_head (lo : Nat) : ∀ (tbl : List Nat) (e : Nat) (es : List Nat), skip lo tbl = e :: es → lo ≤ eHi e := by
+/-- on `[lo, hi]` the table's interval lookup (projected by `norm`) is the constant `exp`; the range
+may span several adjacent entries and gaps -/
+def coverRow (exp : Nat) (norm : Nat → Nat) : Nat → Nat → List Nat → Bool
+  | _, _, [] => norm 0 == exp
+  | lo, hi, e :: es =>
+    if eHi e < lo then coverRow exp norm lo hi es                 -- entry entirely before the range
+    else if hi < eLo e then norm 0 == exp                         -- entry entirely after: the range is a gap
+    else
+      (decide (eLo e ≤ lo) || norm 0 == exp) &&                   -- the part before the entry is a gap
+      norm e == exp &&
+      (decide (hi ≤ eHi e) || coverRow exp norm (eHi e + 1) hi es)
+
+theorem coverRow_sound (exp : Nat) (norm : Nat → Nat) : ∀ (tbl : List Nat) (lo hi : Nat), Sorted tbl →
+    coverRow exp norm lo hi tbl = true → ∀ r, lo ≤ r → r ≤ hi → norm (lookupE tbl r) = exp := by
   intro tbl
   induction tbl with
-  | nil => intro e es h; cases h
-  | cons a as ih =>
-    intro e es h
-    simp only [skip] at h
+  | nil =>
+    intro lo hi _ h r _ _
+    simp only [coverRow, beq_iff_eq] at h
+    simpa [lookupE] using h
+  | cons e es ih =>
+    intro lo hi hs h r h1 h2
+    have hwf := hs.wf e (List.mem_cons_self ..)
+    have hpw := List.pairwise_cons.mp hs.pw
+    have hs' : Sorted es := ⟨fun x hx => hs.wf x (List.mem_cons_of_mem _ hx), hpw.2⟩
+    have hlater : r < eLo e → lookupE (e :: es) r = 0 := by
+      intro hr
+      apply lookupE_none
+      intro x hx hc
+      rcases List.mem_cons.mp hx with rfl | hx'
+      · omega
+      · have := hpw.1 x hx'; omega
+    simp only [coverRow] at h
     split at h
-    · exact ih e es h
-    · cases h; omega
+    · rename_i hb
+      simp only [lookupE]
+      rw [if_neg (by omega)]
+      exact ih lo hi hs' h r h1 h2
+    · rename_i hb
+      split at h
+      · rename_i ha
+        simp only [beq_iff_eq] at h
+        rw [hlater (by omega)]; exact h
+      · rename_i ha
+        simp only [Bool.and_eq_true, Bool.or_eq_true, decide_eq_true_eq, beq_iff_eq] at h
+        obtain ⟨⟨hpre, hmid⟩, hpost⟩ := h
+        by_cases hr1 : r < eLo e
+        · rw [hlater hr1]
+          rcases hpre with hp | hp
+          · omega
+          · exact hp
+        · by_cases hr2 : r ≤ eHi e
+          · simp only [lookupE]
+            rw [if_pos ⟨by omega, hr2⟩]
+            exact hmid
+          · simp only [lookupE]
+            rw [if_neg (by omega)]
+            rcases hpost with hp | hp
+            · omega
+            · exact ih (eHi e + 1) hi hs' hp r (by omega) h2
 
-/-- the walk: on every row, the table's interval lookup (projected by `norm`) is `exp row` -/
+/-- the walk: every reference row is covered with its prescribed value -/
 def walk (exp : Row → Nat) (norm : Nat → Nat) : List Row → List Nat → Bool
   | [], _ => true
   | row :: rows, tbl =>
-    (match skip row.lo tbl with
-     | [] => norm 0 == exp row
-     | e :: _ =>
-       if eLo e ≤ row.lo then decide (row.hi ≤ eHi e) && norm e == exp row
-       else decide (row.hi < eLo e) && norm 0 == exp row) &&
-    walk exp norm rows (skip row.lo tbl)
+    coverRow (exp row) norm row.lo row.hi (skip row.lo tbl) && walk exp norm rows (skip row.lo tbl)
 
 theorem walk_sound (exp : Row → Nat) (norm : Nat → Nat) (tbl0 : List Nat) :
     ∀ (rows : List Row) (tbl : List Nat) (lo : Nat), rowsOK lo rows = true → Sorted tbl →
@@ -102,30 +147,7 @@ theorem walk_sound (exp : Row → Nat) (norm : Nat → Nat) (tbl0 : List Nat) :
       rw [hinv r (by omega), skip_lookup row0.lo tbl r hr]
     rcases List.mem_cons.mp hrow with rfl | hrow'
     · rw [hinv' r h1]
-      cases ht : skip row.lo tbl with
-      | nil =>
-        rw [ht] at hhead
-        simp only [beq_iff_eq] at hhead
-        simpa [lookupE] using hhead
-      | cons e es =>
-        rw [ht] at hhead hs'
-        simp only at hhead
-        split at hhead
-        · rename_i hel
-          simp only [Bool.and_eq_true, decide_eq_true_eq, beq_iff_eq] at hhead
-          simp only [lookupE]
-          rw [if_pos ⟨by omega, by omega⟩]
-          exact hhead.2
-        · rename_i hel
-          simp only [Bool.and_eq_true, decide_eq_true_eq, beq_iff_eq] at hhead
-          rw [lookupE_none (e :: es) r]
-          · exact hhead.2
-          · intro x hx hc
-            rcases List.mem_cons.mp hx with rfl | hx'
-            · omega
-            · have := (List.pairwise_cons.mp hs'.pw).1 x hx'
-              have := hs'.wf e (List.mem_cons_self ..)
-              omega
+      exact coverRow_sound (exp row) norm _ row.lo row.hi hs' hhead r h1 h2
     · exact ih (skip row0.lo tbl) (row0.hi + 1) hrest hs' (fun r hr => hinv' r (by omega)) htail row hrow' r h1 h2
 
 /-- **a table agrees with the reference on every code point** -/
